@@ -821,7 +821,7 @@ for _i, _m in enumerate(_MODS + [FU]):
 # ---------------------------------------------------------------------- assignment expressions (walrus) in loop / if tests
 VARIANTS += [
     V('G-wl-01', 'E', ALL, ST, 'fifo_stream', r'while True:\n(\s+)z = tasks\.get\(\)\n\s+if z is None:\n\s+break\n', r'while (z := tasks.get()) is not None:\n'),
-    V('G-wl-02', 'E', ALL, ST, 'Buffer.__iter__', r'while True:\n(\s+)z = tasks\.get\(\)\n\s+if z == finished:\n\s+break\n', r'while (z := tasks.get()) != finished:\n'),
+    V('G-wl-02', 'E', ALL, ST, 'Buffer.__iter__', r'while True:\n(\s+)z = tasks\.get\(\)\n\s+if z is finished:\n\s+break\n', r'while (z := tasks.get()) is not finished:\n'),
     V('G-wl-03', 'E', ALL, SV, 'Server._gather_output', r'z = q_out\.get\(\)\n(\s+)if z is None:\n', r'if (z := q_out.get()) is None:\n'),
     V('G-wl-04', 'E', ALL, WK, 'Worker._start_single.get_input', r'z = q_in\.get\(\)\n(\s+)if z is None:\n', r'if (z := q_in.get()) is None:\n'),
     V('G-wl-05', 'E', ALL, SV, 'Server._gather_output.notify', r'z = q\.get\(\)\n(\s+)if z is None:\n', r'if (z := q.get()) is None:\n'),
@@ -1012,4 +1012,12 @@ VARIANTS += [
     V('C12-M30', 'M', ('C12',), CX, 'SpawnProcess.join', r"(\n        )self\._result_collector_thread_\.join\(\)\n", r"\1if self.exitcode == 0:\1    return\1self._result_collector_thread_.join()\n", ('C12-4',), note='seeded C12-r4m1 shape on the repaired tree: exit status 0 skips the outcome'),
     V('C12-M31', 'M', ('C12',), CX, 'SpawnProcess.join', r"(\n        )self\._result_collector_thread_\.join\(\)\n", r"\1self._result_collector_thread_.join()\1self._logger_thread_.join()\n", ('C12-4',), note='seeded C12-r4m2 shape: join also waits for the log channel'),
     V('C12-E30', 'E', ALL, CX, 'SpawnProcess.join', r"(\n        )if self\._future_\.exception\(\):\n\s+raise self\._future_\.exception\(\)", r"\1exc = self._future_.exception()\1if exc is not None:\1    raise exc", note='outcome bound to a local'),
+]
+
+VARIANTS += [
+    V('C03-M30', 'M', ('C03', 'C05'), ST, 'Buffer.__iter__', r'if z is finished:', 'if z == finished:', ('C03-7', 'C05-2'), note='D20 shape: marker recognised by equality'),
+    V('C03-M31', 'M', ('C03', 'C05'), SA, 'AsyncIter.__aiter__', r'if x is finished:', 'if x == finished:', ('C03-7', 'C05-2'), note='D20 shape'),
+    V('C03-M32', 'M', ('C03', 'C05'), SA, 'SyncIter.__iter__', r'if x is stopped:', 'if stopped == x:', ('C03-7', 'C05-2'), note='D20 shape, marker on the left'),
+    V('C03-M33', 'M', ('C03', 'C05'), SA, 'AsyncBuffer', r'(self\._externally_stopped = to_stop\n)(\n    def _start\(self\):\n        self\._stopped = threading\.Event\(\)\n)        self\._tasks = SingleLane\(self\.maxsize\)\n', r'\1        self._tasks = SingleLane(self.maxsize)\n\2', ('C03-7', 'C05-9'), note='seeded C03-r4m2 shape on the async buffer: queue created by the constructor'),
+    V('C03-E30', 'E', ALL, ST, 'Buffer.__iter__', r'if z is finished:', 'if z is FINISHED:', note='marker named directly'),
 ]
